@@ -9,7 +9,7 @@ use crate::array::{
     Array, ArrayBuilder, ArrayBuilderImpl, ArrayImpl, BoolArrayBuilder, DataChunk,
     DataChunkBuilder, RowRef,
 };
-use crate::types::{DataType, DataValue};
+use crate::types::{DataType, DataValue, Row};
 
 /// The executor for nested loop join.
 pub struct NestedLoopJoinExecutor {
@@ -22,9 +22,16 @@ pub struct NestedLoopJoinExecutor {
 impl NestedLoopJoinExecutor {
     #[try_stream(boxed, ok = DataChunk, error = ExecutorError)]
     pub async fn execute(self, left_child: BoxedExecutor, right_child: BoxedExecutor) {
-        if !matches!(self.op, Expr::Inner | Expr::LeftOuter) {
+        if !matches!(
+            self.op,
+            Expr::Inner | Expr::LeftOuter | Expr::RightOuter | Expr::FullOuter
+        ) {
             todo!("unsupported join type: {:?}", self.op);
         }
+        let left_outer = matches!(self.op, Expr::LeftOuter | Expr::FullOuter);
+        let right_outer = matches!(self.op, Expr::RightOuter | Expr::FullOuter);
+        // the right rows are kept to append the unmatched ones for right outer join
+        let mut right_rows: Vec<Row> = vec![];
         let left_chunks = left_child.try_collect::<Vec<DataChunk>>().await?;
 
         let left_rows = || left_chunks.iter().flat_map(|chunk| chunk.rows());
@@ -39,6 +46,9 @@ impl NestedLoopJoinExecutor {
         for right_chunk in right_child {
             let right_chunk = right_chunk?;
             for right_row in right_chunk.rows() {
+                if right_outer {
+                    right_rows.push(right_row.to_owned());
+                }
                 for left_row in left_rows() {
                     let values = left_row.values().chain(right_row.values());
                     if let Some(chunk) = builder.push_row(values) {
@@ -68,7 +78,7 @@ impl NestedLoopJoinExecutor {
         let filter = filter_builder.take();
 
         // append rows for left outer join
-        if matches!(self.op, Expr::LeftOuter) {
+        if left_outer {
             // we need to pick row of left_row which unmatched rows
             let left_row_num = left_rows().count();
             for (mut i, left_row) in left_rows().enumerate() {
@@ -86,6 +96,25 @@ impl NestedLoopJoinExecutor {
                 // if all false, we append row: (left, NULL)
                 let values =
                     (left_row.values()).chain(self.right_types.iter().map(|_| DataValue::Null));
+                if let Some(chunk) = builder.push_row(values) {
+                    yield chunk;
+                }
+                tokio::task::consume_budget().await;
+            }
+        }
+
+        // append rows for right outer join
+        if right_outer {
+            let left_row_num = left_rows().count();
+            for (j, right_row) in right_rows.into_iter().enumerate() {
+                // the j-th right row is matched if any of `filter[i + left_row_num * j]` is true
+                let matched = (0..left_row_num)
+                    .any(|i| matches!(filter.get(i + left_row_num * j), Some(true)));
+                if matched {
+                    continue;
+                }
+                // if all false, we append row: (NULL, right)
+                let values = (self.left_types.iter().map(|_| DataValue::Null)).chain(right_row);
                 if let Some(chunk) = builder.push_row(values) {
                     yield chunk;
                 }
